@@ -42,7 +42,7 @@ G3 == {IncL(None), IncL(Rel("s")), EndL, Mx(Blank, -1, 1, Rel("m")), Mx(Rel("n1"
 G3b == {IncL(AbsN("s.example.")), IncL(None), EndL, Txt(Blank, -1, "i"), Txt(Rel("n1"), 5, "j"), Soa(At, -1, 7), TtlL(0), OriginL(Rel("s"))}
 \* G4 - $GENERATE between records (owner / TTL inheritance around it)
 GenA == {GenL(1, 3, 2, <<P("h"), D>>, FALSE, 5, "A", <<P("10.0.0."), D>>, "text"),
-         GenL(9, 11, 1, <<P("h"), M(1, 3, "d")>>, FALSE, -1, "PTR", <<P("t"), M(0, 2, "x")>>, "rel"),
+         GenL(9, 11, 1, <<P("h"), M(-4, 3, "d")>>, FALSE, -1, "PTR", <<P("t"), M(0, 2, "x")>>, "rel"),
          GenL(2, 2, 1, <<D, P(".g.example.")>>, TRUE, -1, "PTR", <<P("p"), D, P(".example.")>>, "abs"),
          GenL(0, 8, 8, <<P("o"), M(0, 3, "o")>>, FALSE, 0, "NS", <<P("ns"), M(10, 0, "X")>>, "rel")}
 G4 == GenA \cup {Txt(Blank, -1, "k"), Txt(Rel("n1"), 300, "l"), TtlL(5), OriginL(Rel("s")), Mx(Blank, -1, 1, Rel("m"))}
